@@ -15,6 +15,8 @@ TIERS = {
 
 def run_case(sc):
     """Execute one scenario against the real IndexedAssembly.find_overlaps and record the result."""
+    if sc.get("cls") == "tandem-repeat":
+        sc = dict(sc, tandem=1)
     from tola.assembly.fragment import Fragment
     from tola.assembly.gap import Gap
     from tola.assembly.indexed_assembly import IndexedAssembly
@@ -23,9 +25,11 @@ def run_case(sc):
     rows = []
     for i, r in enumerate(sc["rows"], 1):
         if r["k"] == "F":
-            rows.append(Fragment(f"f{i}", 1, r["len"], 1))
+            # "tandem" scenarios: every fragment row is the same component interval (equal objects that are distinct rows)
+            rows.append(Fragment("f0", 1, r["len"], 1) if sc.get("tandem") else Fragment(f"f{i}", 1, r["len"], 1))
         else:
             rows.append(Gap(r["len"], "scaffold"))
+    ident = {id(r): i for i, r in enumerate(rows, 1)}
     ia = IndexedAssembly("in", scaffolds=[Scaffold("s", rows)])
 
     def call(_):
@@ -46,7 +50,7 @@ def run_case(sc):
             if isinstance(r, Gap):
                 res["rows"].append({"k": "G", "len": r.length, "idx": 0})
             else:
-                res["rows"].append({"k": "F", "len": r.length, "idx": int(r.name[1:])})
+                res["rows"].append({"k": "F", "len": r.length, "idx": ident.get(id(r), 0) if sc.get("tandem") else int(r.name[1:])})
     return {"tid": sc["tid"], "cls": sc.get("cls", "enum"), "rows": sc["rows"], "a": sc["a"], "b": sc["b"], "res": res}
 
 
@@ -107,6 +111,27 @@ def run_history(grp):
     return {"pairs": n, "traces": out}
 
 
+def boundary_scen(rng, n):
+    """scaffolds of 9 - 40 rows with 1-bp and short queries placed on the first / last base of rows (where a bisection has to decide)"""
+    out = []
+    for _ in range(n):
+        k = rng.randint(9, 40)
+        rows = []
+        for i in range(1, k + 1):
+            kind = rng.choice("FFG")
+            rows.append({"k": kind, "len": rng.choice([1, 2, 3, 5, 8, 13]), "idx": i if kind == "F" else 0})
+        ends = []
+        p = 0
+        for r in rows:
+            ends.append((p + 1, p + r["len"]))
+            p += r["len"]
+        for s0, e0 in rng.sample(ends, min(len(ends), 12)):
+            for a, b in ((e0, e0), (s0, s0), (e0, e0 + 1), (s0 - 1, s0), (e0 + 1, e0 + 1)):
+                if 1 <= a <= b:
+                    out.append({"rows": rows, "a": a, "b": b, "cls": "row-boundary-query"})
+    return out
+
+
 def random_scen(rng, n):
     out = []
     for _ in range(n):
@@ -143,6 +168,11 @@ def main(tier, replay=None):
         raise C.Machinery(f"scenario export: {len(scen)} scenarios parsed, TLC reports {sc['distinct']} initial states")
     rng = random.Random(C.seed())
     scen += random_scen(rng, cfg["rnd"])
+    scen += boundary_scen(rng, cfg["rnd"] // 30)
+    # tandem repeats: a sample of the scenarios with every fragment row naming the same component interval
+    for x in rng.sample(scen, min(len(scen), cfg["rnd"])):
+        if sum(1 for r in x["rows"] if r["k"] == "F") > 1:
+            scen.append({"rows": x["rows"], "a": x["a"], "b": x["b"], "cls": "tandem-repeat", "tandem": 1})
     for i, s in enumerate(scen, 1):
         s["tid"] = i
     # 3. execute against the real code
